@@ -163,6 +163,23 @@ void partAssignCase(const JV& c, size_t k, const char* ver, std::string& out) {
 	ev.add("e", "partassign").add("case", (long long) k).add("ver", ver).raw("L", intsJson(L)).add("boneLimit", boneLimitOf(nif.GetHeader().GetVersion()));
 	ev.raw("s", s0).raw("t", t0);
 	out += ev.done() + "\n";
+	// "the same holds after vertex deletion": a vertex that only some triangles use goes; the labels are read back again.
+	// (Only when every triangle is in a partition: unassigned ones are C10's DeletePartitions business.)
+	if (nt >= 2 && std::find(tp.begin(), tp.end(), -1) == tp.end() && !tp.empty()) {
+		std::vector<uint16_t> idx = {uint16_t(nt + 1)}; // the last fan vertex: used by the last triangle only
+		ContentIds id2;
+		std::string s1 = projectShape(nif, shape, id2);
+		bool all = nif.DeleteVertsForShape(shape, idx);
+		NiVector<BSDismemberSkinInstance::PartitionInfo> got2;
+		std::vector<int> tp2;
+		if (!all) nif.GetShapePartitions(shape, got2, tp2);
+		std::string t1 = projectShape(nif, shape, id2);
+		JObj e2, cj;
+		cj.add("case", (long long) k).add("ver", ver).add("after", "SetShapePartitions");
+		e2.add("e", "delverts").raw("case", cj.done()).raw("I", u16json(idx)).add("allDeleted", all).add("checkParts", true).add("boneLimit", boneLimitOf(nif.GetHeader().GetVersion()));
+		e2.raw("s", s1).raw("t", t1).add("reloaded", false);
+		out += e2.done() + "\n";
+	}
 }
 
 int cmdCases(int argc, char** argv) {
